@@ -88,6 +88,17 @@ let hex_of_bytes (l : coq_N list) : string =
 
 let split_on c s = String.split_on_char c s
 
+(* one result line per input line, whatever happens: an exception in the glue or the
+   extracted code while processing a line (e.g. an implementation string of an unexpected
+   shape) is reported as that line's result instead of killing the driver *)
 let iter_lines (f : string -> unit) : unit =
-  (try while true do f (input_line stdin) done with End_of_file -> ());
+  (try
+     while true do
+       let line = input_line stdin in
+       (try f line with
+        | End_of_file -> raise End_of_file
+        | Stack_overflow -> print_endline "!EXN:Stack_overflow"
+        | e -> print_endline ("!EXN:" ^ Stdlib.Printexc.to_string e))
+     done
+   with End_of_file -> ());
   flush stdout
